@@ -341,8 +341,17 @@ func (x *Exec) binaryCall(fr *Frame, st *State, key string, args []V, rt types.T
 	// bytesOf names the bytes of v and hands the solver the (true) arithmetic fact that they
 	// recombine to v — an instance of the split/join lemma it would otherwise have to
 	// rediscover through div/mod reasoning.
+	abstract := x.topFrame != nil && x.topFrame.contract != nil && x.topFrame.contract.BinaryAbstract
 	bytesOf := func(v string) []string {
 		var bs, parts []string
+		if abstract && !strings.HasPrefix(meth, "Uint") {
+			for i := 0; i < width; i++ {
+				b := x.s.declare("byte", "Int")
+				x.assume("true", "(and (<= 0 "+b+") (<= "+b+" 255))")
+				bs = append(bs, b)
+			}
+			return bs
+		}
 		for i := 0; i < width; i++ {
 			k := i
 			if big {
